@@ -1052,3 +1052,28 @@ package stack
 //@   modifies nothing
 //@ func minus
 //@   modifies nothing
+
+// ---- rendering helpers in stack.go / context.go (C03, C14) ------------------------
+//@ func (*Arg).String
+//@   requires a != nil
+//@   modifies nothing
+//@ func (*Args).String
+//@   requires a != nil
+//@   modifies nothing
+//@   loop 0: invariant -1 <= rangeindex && fresh(v)
+//@   loop 0: decreases len(a.Values) - rangeindex
+//@ func (*Func).String
+//@   requires f != nil
+//@   modifies nothing
+//@ func (*Signature).SleepString
+//@   requires s != nil
+//@   modifies nothing
+//@ func (*Snapshot).IsRace
+//@   requires s != nil && len(s.Goroutines) >= 1 && s.Goroutines[0] != nil
+//@   modifies nothing
+//@ func (*parsedFile).getFuncAST
+//@   requires p != nil
+//@   modifies nothing
+//@ func lineToByteOffsets
+//@   modifies nothing
+//@   loop 0: invariant 0 <= offset && offset <= len(src) && fresh(offsets)
